@@ -32,6 +32,7 @@ pub mod c36;
 pub mod c29;
 pub mod c30;
 pub mod insn_bench;
+pub mod c31;
 pub mod c32;
 pub mod grp_e;
 
@@ -62,6 +63,7 @@ pub fn run(cfg: &Cfg) -> Option<Report> {
         "C36" => c36::run(cfg),
         "C29" => c29::run(cfg),
         "C30" => c30::run(cfg),
+        "C31" => c31::run(cfg),
         "C32" => c32::run(cfg),
         _ => return None,
     };
